@@ -30,7 +30,7 @@ class C02(Prop):
         n = 70 if tier == 'quick' else 2000
         sc, st = history_workload(rnd, n, (8, 24) if tier == 'quick' else (10, 40), bad=0.1,
                                   before=['check c02-pre a {line}'], after=['check c02-post a'],
-                                  ops=dict(point=2, faces=4, basis=5, delete=3, restrict=1.5, subdiv=1.5, addfrom=2, delb=1, dels=1, ensure=0.5))
+                                  ops=dict(point=2, faces=4, basis=5, delete=3, restrict=1.5, subdiv=1.5, addfrom=2, delb=1, dels=1, ensure=0.5, relabel1=1.2, relabel=0.4))
         scripts += sc; merge_stats(stats, st)
         # (b) exhaustive: every small complex x every applicable request
         N = 4 if tier == 'quick' else 5
@@ -59,6 +59,10 @@ class C02(Prop):
             for k in range(0, len(pts) + 1):
                 for sub in itertools.combinations(pts, k):
                     reqs.append('restrict t %s' % list_s([pname(p) for p in sub]))
+                    if 0 < k < len(pts):
+                        # the same set written with repeats, padded to the number of points
+                        rep = list(sub) + [sub[i % k] for i in range(len(pts) - k)]
+                        reqs.append('restrict t %s' % list_s([pname(p) for p in rep]))
             newp = 'zz' if scheme != 'int' else 99
             for k in range(2, min(len(pts) + 1, 4) + 1):
                 for sub in itertools.combinations(pts + [None], k):
@@ -369,6 +373,10 @@ class C08(Prop):
             for q in ['snapf s1 f', 'copy g f ?', 'complexes f p', '! complexes-partial f 1', '! complexes-partial f 2',
                       'json j f', 'q f euler', 'q f counts', 'q f betti -', 'q f Z -', '! flag fl f', '! q f cmp le f']:
                 lines += ['check save-all', q, 'check unchanged-all']
+            if i % 2:
+                # an iteration taken one step at a time, the caller moving the index in between
+                from harness.props3 import stepped_iteration
+                lines += stepped_iteration(rnd, lines, 'c08')
             scripts.append(lines)
         return scripts, {'op_mix': stats, 'generator': 'random two-complex worlds with attributes x %d read-only / constructor calls each in random order; filtrations x snap/copy/complexes (complete and abandoned iteration)/queries' % len(READONLY)}
 
@@ -393,6 +401,22 @@ class C09(Prop):
             for j in range(rnd.randint(2, 5)):
                 side, other = rnd.choice([('n', 'a'), ('a', 'n'), ('n', 'u'), ('u', 'n')])
                 lines += ['check save %s' % other, 'MUT %s' % side, 'check unchanged %s' % other]
+            scripts.append(lines)
+        for i in range(20 if tier == 'quick' else 400):
+            lines = small_world(rnd)
+            pts = [l.split()[4] for l in lines if l.startswith('add a [ ]') and l.split()[4] != '-'][:5]
+            if len(pts) < 2:
+                continue
+            lines += ['emb e a 2']
+            P = lambda: '[ %s %s ]' % (float(rnd.randint(0, 3)).hex(), float(rnd.randint(0, 3)).hex())
+            for x in pts:
+                lines.append('pos e %s %s' % (x, P()))
+            eps = float(rnd.choice([1, 2, 3])).hex()
+            lines += ['vr n e %s ?' % eps, 'snap n', 'check fresh n vietorisRips', 'check c12 n e %s' % eps]
+            lines += ['check save a', 'MUT n', 'check unchanged a', 'check save n', 'MUT a', 'check unchanged n']
+            for x in rnd.sample(pts, rnd.randint(1, len(pts))):
+                lines.append('pos e %s %s' % (x, P()))
+            lines += ['vr m e %s ?' % eps, 'snap m', 'check fresh m vietorisRips', 'check c12 m e %s' % eps]
             scripts.append(lines)
         # resolve MUT placeholders against a live run
         out = []
@@ -426,6 +450,10 @@ class C09(Prop):
             else:
                 lines += ['complexes f p', 'check fresh p0 complexes']
                 new = 'p0'
+                if i % 2:
+                    # the same iteration taken step by step, earlier results edited in between
+                    from harness.props3 import stepped_iteration
+                    lines += stepped_iteration(rnd, lines, 'c09')
             lines += ['check save f', 'add %s [ ] sNEWP -' % new, 'check unchanged f',
                       'check save %s' % new, 'add f [ ] sNEWQ { sk i3 }', 'check unchanged %s' % new]
             scripts.append(lines)
@@ -511,8 +539,25 @@ class C12(Prop):
                 if prev is not None:
                     lines.append('check subfam %s %s vietorisRips' % (prev, w))
                 prev = w
+            if i % 2:
+                # the same embedding used again after its points moved (and one was added): nothing
+                # remembered from the first round may survive
+                moved = rnd.sample(list(zip(names, pts)), rnd.randint(1, min(3, npts)))
+                if rnd.random() < 0.3:
+                    lines.append('clear e')
+                    moved = list(zip(names, pts))
+                for x, p in moved:
+                    q = [float(rnd.randint(0, 4)) if rnd.random() < 0.5 else c for c in p]
+                    if rnd.random() < 0.5:
+                        q = list(rnd.choice(pts))          # onto another point's position
+                    lines.append('pos e %s [ %s ]' % (tok(x), ' '.join(float(c).hex() for c in q)))
+                if rnd.random() < 0.4:
+                    lines += ['add p [ ] sLATE -', 'pos e sLATE [ %s ]' % ' '.join(float(c).hex() for c in rnd.choice(pts))]
+                for k, eps in enumerate(rnd.sample(eps_list, min(3, len(eps_list)))):
+                    w = 'x%d' % k
+                    lines += ['vr %s e %s ?' % (w, eps.hex()), 'snap ' + w, 'check c12 %s e %s' % (w, eps.hex())]
             scripts.append(lines)
-        return scripts, {'generator': 'integer-grid, collinear/coincident, decimal and random point sets in 1-3 dimensions, 2-7 points, eps below/at/above pairwise distances (incl. negative and beyond the diameter), Euclidean/Manhattan/Chebyshev'}
+        return scripts, {'generator': 'the same embedding used again after points moved, were added or all positions cleared; integer-grid, collinear/coincident, decimal and random point sets in 1-3 dimensions, 2-7 points, eps below/at/above pairwise distances (incl. negative and beyond the diameter), Euclidean/Manhattan/Chebyshev'}
 
 # ================================================================ C15
 @prop('C15')
@@ -632,7 +677,25 @@ class C16(Prop):
             lines = [l.replace(' u ', ' b ').replace('new u', 'new b') for l in lines]
             lines += ['check c16-pre a b', 'compose r a b', 'check c16-post a b r', 'copy b2 a ?', 'check c16-pre a b2', 'compose r2 a b2', 'check c16-post a b2 r2']
             scripts.append(lines)
-        return scripts, {'exhaustive': False, 'generator': '%d ordered pairs of complexes on <= %d points (names tied to bases) incl. single-name and single-basis perturbations, attributes on shared/unshared simplices, with and without target; operands with histories' % (len(pairs), N)}
+        # operands that share a past: b starts as a copy of a, both are edited further (deleted
+        # names re-used on other bases, points renamed and the old names re-introduced), with
+        # compositions in between
+        n = 150 if tier == 'quick' else 2500
+        for i in range(n):
+            g = gen.Gen(rnd, pool=('int5', 'str5')[i % 2], bad=0.05, snap=False, var='a', max_points=5,
+                        ops=dict(point=3, faces=3, basis=5, delete=2, relabel1=2, delb=0.5, dupbasis=0.5))
+            for _ in range(rnd.randint(3, 7)):
+                g.step()
+            g.emit('copy b a ?', snap=False)
+            for rnd_ in range(rnd.randint(1, 3)):
+                for _ in range(rnd.randint(1, 5)):
+                    g.var = rnd.choice(['a', 'a', 'b'])
+                    g.step()
+                r = 'r%d' % rnd_
+                for l in ['check c16-pre a b', 'compose %s a b' % r, 'check c16-post a b %s' % r, 'snap ' + r]:
+                    g.emit(l, snap=False)
+            scripts.append(g.lines)
+        return scripts, {'exhaustive': False, 'generator': 'operands sharing a past (copy, then deletions / re-used names / renamed points on both sides, compositions in between); %d ordered pairs of complexes on <= %d points (names tied to bases) incl. single-name and single-basis perturbations, attributes on shared/unshared simplices, with and without target; operands with histories' % (len(pairs), N)}
 
 # ================================================================ C17
 @prop('C17')
